@@ -12,7 +12,7 @@ import (
 // PlusKinds are the features of the wider class W+ (C09 only).
 var PlusKinds = []string{"ptrIntoOperation", "ptrNestedInline", "ptrMissingPosition", "ptrInPtrTarget", "ptrCycle", "auxBackRef", "collisionWithRefs",
 	"danglingLocalDef", "danglingRemoteFile", "danglingRemoteFragment", "recursiveContainers", "wholeDocSchema", "paramRefToNonParam", "responseRefToNonResponse",
-	"ptrToNonSchema", "refWithSiblings", "absoluteSelfRef", "itemsRef", "deepNesting", "pathItemRefDangling", "selfRefDefinition", "ptrToSelf", "sharedRefToRemote", "sharedRefToMissing"}
+	"ptrToNonSchema", "refWithSiblings", "absoluteSelfRef", "itemsRef", "deepNesting", "pathItemRefDangling", "selfRefDefinition", "ptrToSelf", "sharedRefToRemote", "sharedRefToMissing", "wholeDocPointerNested"}
 
 // MustErrorKinds: planted at a position reachable from an operation, Flatten must return an error (ContinueOnError off).
 var MustErrorKinds = map[string]bool{"ptrMissingPosition": true, "ptrCycle": true, "danglingRemoteFile": true, "danglingRemoteFragment": true, "sharedRefToMissing": true}
@@ -130,11 +130,35 @@ func (b *Bundle) Plus(kind string) {
 		b.section(b.Root, "responses")["rr"+k] = jx.Obj{"description": "r"}
 		p := "/pns" + k
 		b.Op(p, "get", true)
-		b.useRef(Pick(b.rng, []string{"#/info", "#/paths/~1pns" + k + "/get", "#/parameters/pp" + k, "#/responses/rr" + k, "#/paths/~1pns" + k, "#/swagger", "#/info/title", "#", "#/"}), holder)
+		// some ordinary material: a pointer to the whole document also reaches its definitions section
+		b.Def("pns"+k, jx.Obj{"type": "object", "description": b.lbl("pn"), "properties": jx.Obj{"owner": b.Obj()}})
+		b.Def("pns"+k+"Owner", b.Obj())
+		b.useRef("#/definitions/pns"+k, "schema")
+		targets := []string{"##", "#/paths/~1pns" + k + "/get/responses/204", "#/info", "#/paths/~1pns" + k + "/get", "#/parameters/pp" + k, "#/responses/rr" + k,
+			"#/paths/~1pns" + k, "#/swagger", "#/info/title", "#", "#/", "#/paths/~1pns" + k + "/get/responses"}
+		if b.Variant >= 0 {
+			// the systematic corpus goes through the first ones deterministically: a pointer to the whole document,
+			// a pointer to a response object (both were crash sites), ...
+			// one hostile target per case, so that an early error on another one cannot hide it
+			t := targets[b.Variant%len(targets)]
+			b.Place(Pick(b.rng, []string{"pathParam", "opParam", "definition"}), b.Hold(Pick(b.rng, []string{"allOf", "property", "items"}), jx.Obj{"$ref": t}, 3, ""), "")
+			b.section(b.Root, "responses")["viaShared"+k] = jx.Obj{"description": b.lbl("vs"), "schema": jx.Obj{"type": "array", "items": jx.Obj{"$ref": t}}}
+			op2 := b.Op(b.newPath(), "options", true)
+			jx.AsObj(op2["responses"])["200"] = jx.Obj{"$ref": "#/responses/viaShared" + k}
+			break
+		}
+		b.useRef(Pick(b.rng, targets), holder)
 	case "refWithSiblings":
 		r := b.Target("localDef", "")
 		op := b.Op(b.newPath(), "get", true)
 		jx.AsObj(op["responses"])["200"] = jx.Obj{"description": b.lbl("s"), "schema": jx.Obj{"$ref": r, "description": "sibling " + k, "properties": jx.Obj{"extra": jx.Obj{"type": "string"}}}}
+		// a remote $ref next to keywords which themselves hold a remote $ref: rewriting the outer one makes the inner key vanish
+		b.AuxDef("sub/a.json", "sib"+k, b.Prim())
+		rr := "sub/a.json#/definitions/sib" + k
+		b.Def("arrSib"+k, jx.Obj{"$ref": rr, "type": "array", "description": b.lbl("as"), "items": jx.Obj{"$ref": rr}})
+		b.Def("mapSib"+k, jx.Obj{"$ref": rr, "type": "object", "additionalProperties": jx.Obj{"$ref": rr}, "properties": jx.Obj{"p": jx.Obj{"$ref": rr}}})
+		b.useRef("#/definitions/arrSib"+k, "schema")
+		b.useRef("#/definitions/mapSib"+k, "schema")
 	case "absoluteSelfRef":
 		b.Def("Abs"+k, b.Obj())
 		b.useRef("/vbundle/root.json#/definitions/Abs"+k, holder)
@@ -175,6 +199,17 @@ func (b *Bundle) Plus(kind string) {
 			op := b.Op(b.newPath(), "get", true)
 			jx.AsObj(op["responses"])["500"] = jx.Obj{"$ref": "#/responses/failure" + k}
 		}
+	case "wholeDocPointerNested":
+		// the shape on which a pointer to the whole document once made Flatten double the definitions at every pass:
+		// reached through nested allOf in a path-level body parameter, next to a generated-name collision
+		b.Def("pet"+k, jx.Obj{"type": "object", "properties": jx.Obj{"owner": jx.Obj{"type": "object", "properties": jx.Obj{"id": jx.Obj{"type": "integer"}}}}})
+		b.Def("pet"+k+"Owner", jx.Obj{"type": "object", "properties": jx.Obj{"id": jx.Obj{"type": "integer"}}})
+		b.Def("Pet"+k+"owner", jx.Obj{"type": "object", "properties": jx.Obj{"id": jx.Obj{"type": "integer"}}})
+		p := b.newPath()
+		b.Op(p, "put", false)
+		wd := Pick(b.rng, []string{"##", "##", "#/"})
+		jx.AsObj(jx.AsObj(b.Root["paths"])[p])["parameters"] = jx.Arr{jx.Obj{"name": "body", "in": "body",
+			"schema": jx.Obj{"allOf": jx.Arr{jx.Obj{"allOf": jx.Arr{jx.Obj{"allOf": jx.Arr{jx.Obj{"$ref": wd}}}}}}}}}
 	case "selfRefDefinition":
 		b.Def("Me"+k, jx.Obj{"$ref": "#/definitions/Me" + k})
 		b.useRef("#/definitions/Me"+k, holder)
